@@ -27,8 +27,10 @@ Every run:
   revision = `git-v1:<sha>` (stable under re-import).
 
 Findings (`_classify`, family slug computed from the concrete commit):
-missing-message, encoding-false, person-ident-noncanonical,
-git-extra-line-boundary.
+missing-message, person-ident-noncanonical, git-extra-embedded-newline.
+Fixed in /repo b3a449a (now modelled as working, no family): `encoding false`
+(export and get_revision_id), extra-header values containing a str.splitlines()
+boundary other than "\n".
 
 Mutants this was built against (scratch worktree, breezy/git/mapping.py); "oracle" = a
 concrete commit whose re-export differs, T2 = model/implementation mismatch:
@@ -42,6 +44,9 @@ concrete commit whose re-export differs, T2 = model/implementation mismatch:
   M7 git-extra `l.split(" ", 1)` -> `l.split(" ")[:2]` (values with spaces) ............. oracle + T2
   M8 author-timezone compared with `commit_time` (wrong field) ......................... oracle + T2
   harmless: neg-utc property assignments swapped; encoding loop over a list slice -> clean
+  after fix b3a449a: R1 fix reverted (all three hunks) -> oracle (LookupError / ValueError on export,
+       get_revision_id raises) + T2;  R2 `.split("\n")[:-1]` -> `.split("\n")` (trailing empty line) -> oracle + T2
+       R3 in the `encoding == "false"` branch `git-implicit-encoding` ignored (needs `encoding false` + latin-1 bytes) -> oracle + T2
 """
 import itertools
 
@@ -54,9 +59,10 @@ THEOREMS = [
     "fixPerson_canonical",
     "canon_example_ok",
     "missing_message_witness",
-    "encoding_false_witness",
+    "encoding_false_roundtrips",
     "person_ident_witness",
-    "git_extra_line_boundary_witness",
+    "git_extra_embedded_newline_witness",
+    "git_extra_formfeed_roundtrips",
 ]
 RULE = ("commits drawn from a field grammar (see module docstring); a case is one commit in one "
         "strictness mode; non-trivial = anything beyond tree+idents+message is present or the "
@@ -177,9 +183,9 @@ def gen_commit(rng):
         x = rng.random()
         if x < 0.4:
             v = _text(rng, rng.choice(["ascii", "utf8", "high"]), 0, 6, [b"a", b"/", b" ", b"b", b"."])
-            if rng.random() < 0.12:
+            if rng.random() < 0.2:
                 i = rng.randint(0, len(v))
-                v = v[:i] + rng.choice([b"\x0c", b"\x0b", b"\xe2\x80\xa8", b"\xc2\x85", b"\r", b"\n", b"\x1c", b"\x1e"]) + v[i:]
+                v = v[:i] + rng.choice([b"\x0c", b"\x0b", b"\xe2\x80\xa8", b"\xc2\x85", b"\r", b"\n", b"\n", b"\nk v", b"\x1c", b"\x1e"]) + v[i:]
             extra.append([b"HG:rename-source", v])
         elif x < 0.8:
             key = rng.choice(HG_KEYS) if rng.random() < 0.85 else rng.choice([b"foo", b"branch", b""])
@@ -385,18 +391,15 @@ def _canonical_person(p):
 
 
 def _classify(f):
-    """family slug of a failing round trip, from the concrete commit fields"""
+    """family slug of a failing round trip, computed from the concrete commit fields.
+    (`encoding false` and the non-"\n" splitlines boundaries in extra headers were fixed in
+    /repo b3a449a: if they fail again they are plain violations, family None.)"""
     if f["message"] is None:
         return "missing-message"
-    if f["encoding"] == b"false":
-        return "encoding-false"
     if not _canonical_person(f["author"]) or not _canonical_person(f["committer"]):
         return "person-ident-noncanonical"
-    for k, v in f["extra"]:
-        if k in (b"HG:rename-source", b"HG:extra"):
-            s = v.decode("utf-8", "surrogateescape")
-            if s.splitlines() != [s] and s != "":
-                return "git-extra-line-boundary"
+    if any(k in (b"HG:rename-source", b"HG:extra") and b"\n" in v for k, v in f["extra"]):
+        return "git-extra-embedded-newline"
     return None
 
 
@@ -417,12 +420,9 @@ def oracle(ctx, m, case, raw, c1, res, strict):
     except Exception as e:
         gid = "raised %r" % (e,)
     if rev.revision_id != want or gid != want:
-        # get_revision_id() does not special-case `encoding false` the way import_commit() does
-        fam = "encoding-false" if (f["encoding"] == b"false" and rev.revision_id == want
-                                   and isinstance(gid, str) and "LookupError" in gid) else None
-        ctx.count("revid-unstable:" + str(fam))
+        ctx.count("revid-unstable")
         ctx.violation(case, "revision id not derived from the sha alone: import gives %r, get_revision_id %r, sha %r"
-                      % (rev.revision_id, gid, c1.id), family=fam)
+                      % (rev.revision_id, gid, c1.id), family=None)
     if res[0] == "X":
         fam = _classify(f)
         ctx.count("roundtrip-fails:" + str(fam))
